@@ -39,6 +39,9 @@ def load_catalogue():
     for p in sorted({m["prop"] for m in cat if m.get("source") != "builtin"}):
         cat.append({"id": "%s-eq-annotate-alias" % p.lower(), "prop": p, "kind": "equiv", "transform": "annotate-alias", "edits": [],
                     "why": "type annotations on parameters/returns/first assignment of every function, `import numpy` -> `import numpy as np`", "source": "builtin"})
+    for p in sorted({m["prop"] for m in cat if m.get("source") != "builtin"}):
+        cat.append({"id": "%s-eq-commute" % p.lower(), "prop": p, "kind": "equiv", "transform": "commute", "edits": [],
+                    "why": "every `x * k`/`k + x` with a numeric literal and every single comparison written the other way round", "source": "builtin"})
     return cat
 
 
@@ -140,6 +143,46 @@ class _RenameLocals:
         return R().visit(tree)
 
 
+def commute_tree(dest):
+    """behaviour-preserving operand swaps: `k * x` <-> `x * k` and `k + x` <-> `x + k` where k is
+    a numeric literal (exact for floats, and the reflected operator of the repository's classes
+    is the same function), and `a < b` <-> `b > a` for single comparisons (==, !=, <, <=, >, >=)."""
+    import ast
+
+    def numeric(n):
+        return isinstance(n, ast.Constant) and isinstance(n.value, (int, float)) and not isinstance(n.value, bool)
+
+    class T(ast.NodeTransformer):
+        def visit_BinOp(self, node):
+            self.generic_visit(node)
+            if isinstance(node.op, (ast.Mult, ast.Add)) and numeric(node.left) != numeric(node.right):
+                node.left, node.right = node.right, node.left
+            return node
+
+        def visit_Compare(self, node):
+            self.generic_visit(node)
+            flip = {ast.Lt: ast.Gt, ast.Gt: ast.Lt, ast.LtE: ast.GtE, ast.GtE: ast.LtE, ast.Eq: ast.Eq, ast.NotEq: ast.NotEq}
+            if len(node.ops) == 1 and type(node.ops[0]) in flip and not any(isinstance(x, (ast.Call, ast.NamedExpr, ast.Await)) for side in (node.left, node.comparators[0]) for x in ast.walk(side)):
+                node.left, node.comparators, node.ops = node.comparators[0], [node.left], [flip[type(node.ops[0])]()]
+            return node
+
+    for base in ("hypnotoad", "examples"):
+        for dp, dn, fn in os.walk(os.path.join(dest, base)):
+            if "test_suite" in dp:
+                continue
+            for f in fn:
+                if f.endswith(".py"):
+                    p = os.path.join(dp, f)
+                    with open(p) as fh:
+                        src = fh.read()
+                    try:
+                        out = ast.unparse(ast.fix_missing_locations(T().visit(ast.parse(src)))) + "\n"
+                    except SyntaxError:
+                        continue
+                    with open(p, "w") as fh:
+                        fh.write(out)
+
+
 def reformat_tree(dest, rename=False):
     import ast
     for base in ("hypnotoad", "examples"):
@@ -195,6 +238,8 @@ def run_one(m, root):
             reformat_tree(tmp, rename=True)
         elif m.get("transform") == "annotate-alias":
             annotate_alias_tree(tmp)
+        elif m.get("transform") == "commute":
+            commute_tree(tmp)
         env = dict(os.environ)
         env["VERIF_REPO"] = tmp
         env["HV_EVIDENCE_DIR"] = os.path.join(tmp, "_ev")
